@@ -290,11 +290,12 @@ def subQuery (s : Subs) (state minTick : Nat) (ctx : Option Nat) : Subs × Optio
   ({ s with queries := s.queries ++ [{ id := id, state := state, minTick := minTick, ctx := ctx }],
             queryCtx := cx, next := id + 1 }, some id)
 
-/-- `Subscriptions.WhenArgs`: reuse ignores the context. -/
+/-- `Subscriptions.WhenArgs`: a channel is reused for the same arguments and the same context only
+    (fix 71ec5b8; before, any earlier binding whose arguments contained the requested ones was
+    reused, whatever its context). -/
 def subArgs (s : Subs) (state : Nat) (needsX : Bool) (ctx : Option Nat) : Subs × Option Nat :=
   if s.ctxDone ctx then (s, none) else
-  -- compareArgs(binding.args, args): the new args are a subset of the binding's
-  match s.args.find? (fun b => b.state == state && (!needsX || b.needsX)) with
+  match s.args.find? (fun b => b.state == state && b.needsX == needsX && b.ctx == ctx) with
   | some b => (s, some b.id)
   | none =>
     let id := s.next
